@@ -85,7 +85,8 @@ def rule_single(ctx: Ctx):
     rep, k = ctx.rep, ctx.k
     g = callgraph(ctx)
     put = ctx.fn("BaseEngine.put")
-    callers = g.callers(put)
+    callers = [(c, node, how) for c, node, how in g.callers(put)
+               if not (ctx.is_new(c) and c.name == "put" and c.cls is not None and k.base in ctx.p.mro(c.cls))]  # a later override delegating to it
     rep.floor("C13.single", "callers of engine.put", len(callers), 2)
     for c, node, how in callers:
         rep.check(c.qualname in ("StateMachine._put_nonblocking", "BaseEngine.start"), "C13.single", c.loc(node),
@@ -97,6 +98,12 @@ def rule_single(ctx: Ctx):
         rep.check(c.qualname == "Event.__call__", "C13.single", c.loc(node), "every way of triggering goes through Event.__call__", c.key, norm_stmt(node))
     # subclasses do not override put
     for e in k.engines:
+        if e.method("put") is not None and ctx.is_new(e.method("put")):
+            # an override introduced later: what it does with the trigger is decided by the enqueue rule on the paths it is part of
+            from . import c03
+
+            c03.rule_put(ctx, rule="C13.single")
+            continue
         rep.check(e.method("put") is None, "C13.single", f"{e.module.rel}:{e.node.lineno} {e.name}", f"{e.name} uses the base put()", f"{e.module.rel}::{e.name}",
                   "put overridden")
     # MachineMixin binds through bind_events_to
@@ -213,8 +220,25 @@ def rule_bind(ctx: Ctx, rule: str = "C13.bind"):
             rep.check(bool(ok), rule, g.loc(), "on an instance, a BoundEvent with the same id and name, tied to that instance", g.key, f"return {show(v)}")
     rep.floor(rule, "paths of Event.__get__", n, 2)
     be = ctx.p.cls("BoundEvent")
-    rep.check("Event" in be.bases and not be.methods, rule, f"{be.module.rel}:{be.node.lineno} BoundEvent",
-              "a BoundEvent is an Event (same __call__)", f"{be.module.rel}::BoundEvent", f"class BoundEvent({', '.join(be.bases)}) with methods {sorted(be.methods)}")
+    own = []
+    for ms in be.methods.values():
+        for m in ms:
+            # a method that only hands its own arguments to the inherited one (and returns what that returns) changes nothing
+            deleg = True
+            for p in ctx.paths(m, inline=None, exc_edges="none"):
+                calls = [e for e in p.calls() if not show(e.term.func).startswith(("logger.", "logging.", "log."))]
+                a_ = m.node.args
+                names = [x.arg for x in a_.posonlyargs + a_.args][1:]
+                want_args = names + ([f"*{a_.vararg.arg}"] if a_.vararg else [])
+                ok_p = p.kind == "return" and len(calls) == 1 and show(calls[0].term.func) == f"super().{m.name}" and \
+                    [show(x) for x in calls[0].term.args] == want_args and \
+                    [(k_.arg, show(k_.value)) for k_ in calls[0].term.keywords] == ([(None, a_.kwarg.arg)] if a_.kwarg else []) and \
+                    isinstance(p.value, ast.Name) and p.value.id == f"$c{calls[0].idx}"
+                deleg = deleg and ok_p
+            if not deleg:
+                own.append(m.name)
+    rep.check("Event" in be.bases and not own, rule, f"{be.module.rel}:{be.node.lineno} BoundEvent",
+              "a BoundEvent is an Event (same __call__)", f"{be.module.rel}::BoundEvent", f"class BoundEvent({', '.join(be.bases)}) with methods {sorted(own)}")
     b = ctx.fn("StateMachine.bind_events_to")
     n = 0
     for p in ctx.paths(b, inline=None, exc_edges="none", unroll=1):
